@@ -131,6 +131,38 @@ func c09Limits(c *Ctx, r *Report, pi parserInfo, control bool) map[string]bool {
 	if len(sp.lim) == 0 {
 		rep(true, "function has no quantity field", "", "")
 	}
+	// a byte-counted request (FC15, 16, 23) is accepted only if the data present is exactly what
+	// its byte-count byte announces (RTU: with or without the two CRC bytes)
+	if bcOff, counted := map[int64]int64{15: 4, 16: 4, 23: 8}[pi.fc]; counted {
+		data := pf.vals[pi.fn.Params[0]].(ASlice)
+		off := bcOff + 2
+		if pi.tcp {
+			off = bcOff + 8
+		}
+		bc := pf.frameBytes(data, affConst(off), 1, true)
+		exact := atomEQ(data.ln, bc.addc(off+1))
+		withCRC := atomEQ(data.ln, bc.addc(off+3))
+		okLen := true
+		for _, cj := range site.state {
+			if infeasible(cj) {
+				continue
+			}
+			if !(cj.entails(exact) || (!pi.tcp && cj.entails(withCRC))) {
+				okLen = false
+			}
+		}
+		// Not a clause of C09 or C16 as stated (both speak of quantities, counts and coil values
+		// outside the specification's limits), so this is recorded as an observation only: the
+		// sibling parsers of the pinned tree disagree (FC16 demands equality, FC15/FC23 accept
+		// surplus bytes after the announced data).
+		if !control {
+			if okLen {
+				r.info("R9.1", id, "observation: a request whose length disagrees with its byte-count byte is refused", pos)
+			} else {
+				r.info("R9.1", id, "observation: the parser accepts a request that is longer than its byte-count byte announces (surplus bytes are dropped)", pos)
+			}
+		}
+	}
 	for _, sg := range sp.req {
 		if sg.kind != sCoil {
 			continue
